@@ -154,6 +154,8 @@ class NS:
       return self._old
     if name == 'ctx':
       return self._ctx
+    if name in self._extra and self._extra[name] is not None:
+      return self._extra[name]
     if name == 'lheap':
       from mmverif.engine import libcontracts
       return dict(libcontracts.lheap(self._ctx))
@@ -1084,7 +1086,10 @@ class Exec:
       self.safety(z3.And(i >= -recv.length, i < recv.length), 'IndexError',
                   node, 'list index')
       j = z3.If(i < 0, i + recv.length, i)
-      return term_value(recv.at(j), recv.esort)
+      out = term_value(recv.at(j), recv.esort)
+      if recv.sid is not None and z3.is_const(i):
+        out.image_of = recv       # {seq[x] for x in S} is recognised
+      return out
     if isinstance(recv, VRange):
       i = num_term(idx)
       n = z3.If(recv.hi > recv.lo, recv.hi - recv.lo, 0)
@@ -1348,8 +1353,13 @@ class Exec:
       if p in bound:
         bound[p] = conform(ctx, bound[p], shape)
     old_heap = ctx.snapshot_heap()
-    old_ns = NS(ctx, dict(bound), heap=old_heap)
-    ns = NS(ctx, dict(bound), heap=None, old=old_ns)
+    lh_old = None
+    if getattr(ctx, '_lheap', None) is not None or '@lheap' in contract.modifies:
+      from mmverif.engine import libcontracts as _lc
+      lh_old = dict(_lc.lheap(ctx))
+    xtra = {'old_lheap': lh_old} if lh_old is not None else None
+    old_ns = NS(ctx, dict(bound), heap=old_heap, extra=xtra)
+    ns = NS(ctx, dict(bound), heap=None, old=old_ns, extra=xtra)
     callee = contract.qualname
     if ghost and contract.memo:
       mk = (callee,) + tuple(
@@ -1409,7 +1419,7 @@ class Exec:
         obj = self.deref(ctx.get_field(self.deref(obj, path), f), path)
       ctx.objects[self.deref(obj, path).oid].fields[parts[-1]] = unwrap(
           fn(NS(ctx, dict(bound), heap=None, old=old_ns)))
-    post_ns = NS(ctx, vals, heap=None, old=old_ns)
+    post_ns = NS(ctx, vals, heap=None, old=old_ns, extra=xtra)
     npc0 = len(ctx.pc)
     for cl in contract.ensures:
       ctx.assume(cl.fn(post_ns))
@@ -1467,6 +1477,14 @@ class Exec:
   def havoc_frame(self, contract, bound, ns):
     ctx = self.ctx
     for path in contract.modifies:
+      if path == '@lheap':
+        from mmverif.engine import libcontracts as _lc
+        h = _lc.lheap(ctx)
+        n = ctx.sym('lheap')
+        for k_ in ('bag', 'len', 'desc', 'heap'):
+          h[k_] = z3.Const('%s.%s' % (n, k_), h[k_].sort())
+        h['alloc'] = z3.Int(n + '.alloc')
+        continue
       parts = path.split('.')
       root = bound.get(parts[0])
       if root is None:
@@ -1892,6 +1910,8 @@ def elem_term(v, esort):
     v = v.val
   if isinstance(v, (VInt, VBool)) and esort == z3.IntSort():
     return num_term(v)
+  if isinstance(v, (VInt, VBool)) and esort == KeySort:
+    return z3.Function('key_int', z3.IntSort(), KeySort)(num_term(v))
   if isinstance(v, VOpaque) and v.t.sort() == esort:
     return v.t
   if isinstance(v, VSet) and v.t.sort() == esort:
